@@ -359,7 +359,10 @@ pub fn orchestrate(p: &dyn Prop, tier: Tier, plan: &Plan, jobs: usize) -> CheckR
                                             (_, RunRes::Died(d)) => d.clone(),
                                             _ => format!("no result within {:?}", st.timeout),
                                         };
-                                        let key = p.crash_key(tier, si, a, how);
+                                        // Rust's panic exit status means the *harness* panicked outside a
+                                        // guard (engine calls are under catch_unwind): not a verdict
+                                        let harness_panic = detail.contains("unix_wait_status(25856)");
+                                        let key = if harness_panic { "machinery:worker-panicked".to_string() } else { p.crash_key(tier, si, a, how) };
                                         let case = format!("{}|{}", st.name, p.case_text(tier, si, a));
                                         r.0.evals += 1;
                                         r.0.stage = Some(si);
